@@ -230,12 +230,15 @@ def shuffle_t(draw):
     return ['shuffle'] + fl
 
 
+WIDE = ('pitfall', 'count')      # sub-commands with wide clauses: no clause-expanding transformation on them
+
+
 @st.composite
-def tchain(draw, max_len=3, require_random=False):
+def tchain(draw, max_len=3, require_random=False, allow_expanding=True):
     """-T chains with at most one clause-expanding step"""
     steps = []
     n = draw(st.integers(1 if require_random else 0, max_len))
-    expanded = False
+    expanded = not allow_expanding
     for _ in range(n):
         kind = draw(st.sampled_from(['shuffle', 'flip', 'none', 'expand']))
         if kind == 'expand' and not expanded:
